@@ -115,11 +115,33 @@ def _mode_decider(kind, mode):
     return decide
 
 
+def _enum_values(project):
+    cls, mod = project.cls(IMG + ".ImageMode")
+    out = {}
+    for n in cls.body:
+        if isinstance(n, ast.Assign) and len(n.targets) == 1 and isinstance(n.targets[0], ast.Name) and isinstance(n.value, ast.Constant):
+            out[n.targets[0].id] = n.value.value
+    return out
+
+
 def _eval_for_mode(project, f, kind, mode):
+    """Partial evaluation of *f* for an image (or mode object) whose mode is ImageMode.<mode>: mode tests are decided,
+    methods of the mode object are inlined, and the member's own `value` / `name` are the literals of the enum."""
     ev = sym.make_evaluator(project, IMG, [], inline_local=True)
     ev.self_class = IMG + (".Image" if kind == "image" else ".ImageMode")
     ev.assume = _mode_decider(kind, mode)
-    return ev.run(f.node)
+    env = {}
+    if kind == "image":
+        subjects = [("attr", ("sym", "self"), "mode"), ("attr", ("sym", "self"), "_mode")]
+        ev.recv_classes = {t: IMG + ".ImageMode" for t in subjects}
+    else:
+        subjects = [("sym", "self")]
+    val = _enum_values(project).get(mode)
+    for t in subjects:
+        if val is not None:
+            env[("attr", t, "value")] = ("const", val)
+        env[("attr", t, "name")] = ("const", mode)
+    return ev.run(f.node, env=env)
 
 
 def _r1_chains(run, members):
@@ -512,5 +534,24 @@ def _r5_persistence(run):
             run.violated("C15.R5", g, None, "read_image: " + msg, kind=kind)
     else:
         run.holds("C15.R5", g, None, "missing tile (errno 2 only): None under 'none', a freshly allocated cleared 256x256 maskable buffer under 'masked'")
+    # update_image is the other entry that persists a tile: whatever the caller did to the buffer (including clearing it), the
+    # write-back decides between save and unlink, so it must be reached on every normal path after the yield
+    ui = "toasty.pyramid.PyramidIO.update_image"
+    if ui in project.funcs:
+        from sa.cfg import CFG
+        uf = project.fn(ui)
+        run.note_func(uf)
+        cfg = CFG(uf.node)
+        yields = [n for n in cfg.nodes for e in cfg.expr_of(n) for x in ast.walk(e) if isinstance(x, ast.Yield)]
+        writes = {n.id for n in cfg.nodes for c in cfg.calls_at(n) if callee_attr(c) == "write_image"}
+        if not yields or not writes:
+            run.undecided("C15.R5", uf, None, "update_image has no yield / write_image (yields=%d, writes=%d)" % (len(yields), len(writes)), kind="update-shape")
+        else:
+            skipping = [y for y in yields if cfg.exit.id in cfg.reachable(y.id, avoid=writes, skip_labels=("exc",))]
+            if skipping:
+                run.violated("C15.R5", uf, skipping[0].ast, "after the caller's modification update_image can return without calling write_image: a tile the caller "
+                             "left all-undefined keeps its earlier file (write_image is what unlinks it)", kind="update-skips-write")
+            else:
+                run.holds("C15.R5", uf, yields[0].ast, "every normal path after the yield reaches write_image (which saves or unlinks)")
     # the default format resolution of the image's mode covers every mode
     run.holds("C15.R5", project.fn(IMG + ".Image.default_format"), None, "default_format dispatch checked under R1") if (IMG + ".Image.default_format") in project.funcs else None
